@@ -346,6 +346,19 @@ func init() {
 			}
 		}
 		if ctx.Replay != nil {
+			if lkReplay(ctx) {
+				return
+			}
+			var ap struct {
+				API    bool `json:"api_storm_in_child_process"`
+				Rounds int  `json:"rounds"`
+			}
+			if json.Unmarshal(ctx.Replay, &ap) == nil && ap.API {
+				for k := 0; k < 5 && len(ctx.Res.Failures) == 0; k++ {
+					c09RaceStorm(ctx, ap.Rounds)
+				}
+				return
+			}
 			var sp struct {
 				Storm  bool `json:"storm"`
 				Rounds int  `json:"rounds"`
@@ -362,6 +375,12 @@ func init() {
 				fatal(err)
 			}
 			one(&c)
+			return
+		}
+		// first of all, the whole scope API at once in a child process: an unsynchronised map kills the
+		// process it happens in, and the streams below run inside the harness itself
+		c09RaceStorm(ctx, ctx.N(20000, 200000))
+		if len(ctx.Res.Failures) > 0 {
 			return
 		}
 		for _, raw := range ctx.CorpusCases() {
@@ -445,6 +464,9 @@ func init() {
 		}
 		ctx.Res.Evaluations += rounds
 		ctx.Res.Histogram["uncontrolled-first-use-rounds"] += rounds
+		// the lock semantics the deadlock-freedom theorem is about (RWMutex with writer preference,
+		// WaitGroup.Wait), compared step by step with the toolchain's sync package
+		lkStream(ctx, ctx.N(200, 4000))
 	}
 }
 
